@@ -132,156 +132,3 @@ Proof.
   - destruct m; cbn -[newtype_of_value newtype_value]; rewrite newtype_inv; reflexivity.
 Qed.
 
-(* ================================================================ well-formed, shallow values *)
-
-Lemma wf_vstr s : str_ok s = true -> wf true (VString s) = true.
-Proof. unfold str_ok. cbn [wf negb orb]. auto. Qed.
-Lemma wf_vuuid u : uuid_ok u = true -> wf true (vuuid u) = true.
-Proof. unfold uuid_ok, vuuid. cbn [wf fix_len]. auto. Qed.
-Lemma wf_vu32 n : (n <=? u32_max) = true -> wf true (vu32 n) = true.
-Proof. unfold vu32, u32_max. cbn [wf]. unfold int_ok. cbn. intros H. lia. Qed.
-
-Lemma wf_struct l : (lenN l <=? u32_max) = true -> ids_nodup (map fst l) = true ->
-  Forall (fun p => (fst p <=? u32_max) = true /\ wf true (snd p) = true) l -> wf true (VStruct l) = true.
-Proof.
-  intros Hl Hn Hf. cbn [wf]. rewrite Hl, Hn. cbn [andb]. apply forallb_forall. intros p Hp.
-  rewrite Forall_forall in Hf. destruct (Hf p Hp) as [-> ->]. reflexivity.
-Qed.
-
-Lemma nodupb_keys (ks : list N) : NoDup ks -> keys_nodup (map (fun k => KeyZ (Z.of_N k)) ks) = true.
-Proof.
-  induction 1 as [|k ks Hnin Hnd IH]; [reflexivity|]. cbn [map keys_nodup nodupb]. fold (keys_nodup (map (fun k => KeyZ (Z.of_N k)) ks)).
-  rewrite IH, andb_true_r. apply negb_true_iff. apply not_true_is_false. intros E.
-  apply existsb_exists in E as (x & Hx & Ex). apply in_map_iff in Hx as (k' & <- & Hk'). cbn [key_eqb] in Ex.
-  apply Z.eqb_eq in Ex. apply N2Z.inj in Ex. subst. contradiction.
-Qed.
-
-Lemma wf_vmap32 {A} (enc : A -> Value) (ok : A -> bool) (l : list (N * A)) :
-  bt_ok ok l = true -> (forall x, ok x = true -> wf true (enc x) = true) -> wf true (vmap32 enc l) = true.
-Proof.
-  unfold bt_ok. rewrite !andb_true_iff. intros [[Hl Hs] Hf] Henc. unfold vmap32. cbn [wf].
-  rewrite map_map. cbn [fst]. rewrite <- (map_map fst (fun k => KeyZ (Z.of_N k))).
-  rewrite nodupb_keys by (apply bt_sorted_NoDup, Hs). unfold lenN in *. rewrite map_length, Hl. cbn [andb].
-  rewrite forallb_forall in *. intros p Hp. apply in_map_iff in Hp as (q & <- & Hq). cbn [fst snd].
-  specialize (Hf q Hq). apply andb_prop in Hf as [Hk Hok]. rewrite (Henc _ Hok), andb_true_r.
-  cbn [key_ok]. unfold int_ok, u32_max in *. cbn. lia.
-Qed.
-
-Lemma bt_ok_sorted {A} (ok : A -> bool) l : bt_ok ok l = true -> bt_sorted l = true.
-Proof. unfold bt_ok. rewrite !andb_true_iff. tauto. Qed.
-
-Ltac wf_leaf :=
-  cbn [fst snd];
-  first [ reflexivity | assumption
-        | apply wf_vstr; assumption | apply wf_vuuid; assumption | apply wf_vu32; assumption
-        | (cbn [wf]; first [apply wf_vstr | apply wf_vuuid]; assumption) ].
-Ltac wf_fields := apply wf_struct; [reflexivity|reflexivity|repeat (constructor; [split; wf_leaf|])]; try constructor.
-
-Ltac split_ok H := unfold field_ok, variant_ok, func_ok, event_ok, fb_ok, doc_ok, ouuid_ok, ofb_ok in H;
-  cbn [f_id f_name f_doc f_req f_ty v_id v_name v_doc v_ty fn_id fn_name fn_doc fn_args fn_ok fn_err
-       ev_id ev_name ev_doc ev_ty fb_name fb_doc] in H;
-  repeat (let H1 := fresh "H" in apply andb_prop in H as [H H1]).
-
-Lemma field_value_wf m f : field_ok f = true -> wf true (field_value m f) = true.
-Proof. intros H. destruct m, f as [id name [d|] r t]; split_ok H; unfold field_value; cbn [f_id f_name f_doc f_req f_ty docf optf option_map app sel]; wf_fields. Qed.
-
-Lemma variant_value_wf m v : variant_ok v = true -> wf true (variant_value m v) = true.
-Proof. intros H. destruct m, v as [id name [d|] [t|]]; split_ok H; unfold variant_value; cbn [v_id v_name v_doc v_ty docf optf option_map app sel vouuid]; wf_fields. Qed.
-
-Lemma func_value_wf m f : func_ok f = true -> wf true (func_value m f) = true.
-Proof. intros H. destruct m, f as [id name [d|] [a|] [o|] [e|]]; split_ok H; unfold func_value; cbn [fn_id fn_name fn_doc fn_args fn_ok fn_err docf optf option_map app sel vouuid]; wf_fields. Qed.
-
-Lemma event_value_wf m e : event_ok e = true -> wf true (event_value m e) = true.
-Proof. intros H. destruct m, e as [id name [d|] [t|]]; split_ok H; unfold event_value; cbn [ev_id ev_name ev_doc ev_ty docf optf option_map app sel vouuid]; wf_fields. Qed.
-
-Lemma fallback_value_wf m k f : fb_ok f = true -> wf true (fallback_value m k f) = true.
-Proof. intros H. destruct m, k, f as [name [d|]]; unfold fb_ok, doc_ok in H; cbn [fb_name fb_doc] in H; apply andb_prop in H as [Hn Hd]; unfold fallback_value; cbn [fb_name fb_doc docf optf option_map app sel fb_name_id fb_doc_id]; wf_fields. Qed.
-
-Ltac wf_leaf2 :=
-  cbn [fst snd];
-  first [ reflexivity | assumption
-        | apply wf_vstr; assumption | apply wf_vuuid; assumption | apply wf_vu32; assumption
-        | (cbn [wf]; first [apply wf_vstr | apply wf_vuuid]; assumption)
-        | (cbn [wf]; apply fallback_value_wf; assumption)
-        | (eapply wf_vmap32; [eassumption|]; intros x; first [apply field_value_wf | apply variant_value_wf
-                                                          | apply func_value_wf | apply event_value_wf]) ].
-Ltac wf_fields2 := apply wf_struct; [reflexivity|reflexivity|repeat (constructor; [split; wf_leaf2|])]; try constructor.
-
-Lemma builtin_value_wf m b : builtin_ok b = true -> wf true (builtin_value m b) = true.
-Proof.
-  intros H. destruct b as [p|w t|k v|a e|t n]; cbn [builtin_ok] in H;
-    [| |apply andb_prop in H as [H H']|apply andb_prop in H as [H H']|apply andb_prop in H as [H H']];
-    unfold builtin_value; cbn [wf].
-  - destruct m, p; reflexivity.
-  - assert ((wrap_id m w <=? u32_max) = true) as -> by (destruct m, w; reflexivity). apply wf_vuuid, H.
-  - assert ((sel m Ir_BuiltInTypeVariant_Map Rs_BuiltInTypeVariant_Map <=? u32_max) = true) as -> by (destruct m; reflexivity).
-    destruct m; cbn [sel andb]; wf_fields.
-  - assert ((sel m Ir_BuiltInTypeVariant_Result Rs_BuiltInTypeVariant_Result <=? u32_max) = true) as -> by (destruct m; reflexivity).
-    destruct m; cbn [sel andb]; wf_fields.
-  - assert ((sel m Ir_BuiltInTypeVariant_Array Rs_BuiltInTypeVariant_Array <=? u32_max) = true) as -> by (destruct m; reflexivity).
-    destruct m; cbn [sel andb]; wf_fields.
-Qed.
-
-Lemma struct_value_wf m s :
-  str_ok (s_schema s) && str_ok (s_name s) && doc_ok (s_doc s) && bt_ok field_ok (s_fields s) && ofb_ok (s_fallback s) = true ->
-  wf true (struct_value m s) = true.
-Proof.
-  intros H. destruct m, s as [schema name [d|] fields [fb|]];
-    cbn [s_schema s_name s_doc s_fields s_fallback doc_ok ofb_ok] in H;
-    rewrite !andb_true_iff in H; repeat (match type of H with _ /\ _ => let H1 := fresh "H" in destruct H as [H H1] end);
-    unfold struct_value; cbn [s_schema s_name s_doc s_fields s_fallback docf optf option_map app sel vofb]; wf_fields2.
-Qed.
-
-Lemma enum_value_wf m e :
-  str_ok (e_schema e) && str_ok (e_name e) && doc_ok (e_doc e) && bt_ok variant_ok (e_variants e) && ofb_ok (e_fallback e) = true ->
-  wf true (enum_value m e) = true.
-Proof.
-  intros H. destruct m, e as [schema name [d|] vs [fb|]];
-    cbn [e_schema e_name e_doc e_variants e_fallback doc_ok ofb_ok] in H;
-    rewrite !andb_true_iff in H; repeat (match type of H with _ /\ _ => let H1 := fresh "H" in destruct H as [H H1] end);
-    unfold enum_value; cbn [e_schema e_name e_doc e_variants e_fallback docf optf option_map app sel vofb]; wf_fields2.
-Qed.
-
-Lemma newtype_value_wf m n :
-  str_ok (n_schema n) && str_ok (n_name n) && doc_ok (n_doc n) && uuid_ok (n_target n) = true ->
-  wf true (newtype_value m n) = true.
-Proof.
-  intros H. destruct m, n as [schema name [d|] t];
-    cbn [n_schema n_name n_doc n_target doc_ok] in H;
-    rewrite !andb_true_iff in H; repeat (match type of H with _ /\ _ => let H1 := fresh "H" in destruct H as [H H1] end);
-    unfold newtype_value; cbn [n_schema n_name n_doc n_target docf optf option_map app sel]; wf_fields2.
-Qed.
-
-Lemma service_value_wf m s :
-  str_ok (sv_schema s) && str_ok (sv_name s) && doc_ok (sv_doc s) && uuid_ok (sv_uuid s) &&
-  (sv_version s <=? u32_max) && bt_ok func_ok (sv_functions s) && bt_ok event_ok (sv_events s) &&
-  ofb_ok (sv_ffallback s) && ofb_ok (sv_efallback s) = true ->
-  wf true (service_value m s) = true.
-Proof.
-  intros H. destruct m, s as [schema name [d|] u ver fs es [ffb|] [efb|]];
-    cbn [sv_schema sv_name sv_doc sv_uuid sv_version sv_functions sv_events sv_ffallback sv_efallback doc_ok ofb_ok] in H;
-    rewrite !andb_true_iff in H; repeat (match type of H with _ /\ _ => let H1 := fresh "H" in destruct H as [H H1] end);
-    unfold service_value; cbn [sv_schema sv_name sv_doc sv_uuid sv_version sv_functions sv_events sv_ffallback sv_efallback
-                               docf optf option_map app sel vofb]; wf_fields2.
-Qed.
-
-Theorem layout_value_wf m l : layout_ok l = true -> wf true (layout_value m l) = true.
-Proof.
-  intros H. destruct l as [b|s|e|s|n]; cbn [layout_ok] in H; unfold layout_value; cbn [wf].
-  - assert ((sel m Ir_LayoutVariant_BuiltIn Rs_LayoutVariant_BuiltIn <=? u32_max) = true) as -> by (destruct m; reflexivity).
-    apply builtin_value_wf, H.
-  - assert ((sel m Ir_LayoutVariant_Struct Rs_LayoutVariant_Struct <=? u32_max) = true) as -> by (destruct m; reflexivity).
-    apply struct_value_wf, H.
-  - assert ((sel m Ir_LayoutVariant_Enum Rs_LayoutVariant_Enum <=? u32_max) = true) as -> by (destruct m; reflexivity).
-    apply enum_value_wf, H.
-  - assert ((sel m Ir_LayoutVariant_Service Rs_LayoutVariant_Service <=? u32_max) = true) as -> by (destruct m; reflexivity).
-    apply service_value_wf, H.
-  - assert ((sel m Ir_LayoutVariant_Newtype Rs_LayoutVariant_Newtype <=? u32_max) = true) as -> by (destruct m; reflexivity).
-    apply newtype_value_wf, H.
-Qed.
-
-Lemma layout_ok_sorted l : layout_ok l = true -> layout_sorted l = true.
-Proof.
-  destruct l as [b|s|e|s|n]; cbn [layout_ok layout_sorted]; try reflexivity; rewrite !andb_true_iff;
-    intros H; repeat (destruct H as [H ?]); eauto using bt_ok_sorted.
-Qed.
